@@ -7,7 +7,7 @@ import gpar
 META = dict(
     technique="TLC exhaustive model check of PipelineClient.tla (chW/chR queues, DoDeadline enqueue/wait with timers, Do's overflow substitution, writer take/expire/write/put, reader, worker dial/teardown, servers that answer/stall/close/refuse) incl. liveness of deadline calls and refinement of the observable spec PipelineObs.tla + TLC trace validation of recorded executions of a real PipelineClient against PipelineObs (B2) + measured return times",
     design_ref="DESIGN.md §4 C38, Appendix A.5",
-    text="PipelineClient.tla has one action per step of pipelineConnClient (DoDeadline: fast/blocked enqueue, timer in both waits; Do: enqueue or fail the oldest queued work with ErrPipelineOverflow, then retry or fail itself; writer: take, deadline test, write, put to chR with stop alternative; reader; worker teardown failing pending readers; restart). TLC checks OverflowNotSent, ResultClass, TimerArmed, QueueBound, InFlightBound, OnePlace, that every deadline call returns whatever the server does (fair timers), and that the model refines PipelineObs (the caller/wire/server-visible behaviour) for 3 calls, P in {1,2}, servers answer/stall/close/refuse. A real PipelineClient (MaxPendingRequests 1-2, MaxConns 1-2) is driven by 4-10 concurrent DoDeadline/DoTimeout/Do calls against in-memory servers that answer, answer slowly, stall, close or refuse; call start/return, request lines completed in the bytes the client wrote (instrumented conn) and server answers are logged in one order and validated by PipelineObsTrace (overflow only for never-written requests, ok only for the call's own answered request, <= P+2 unanswered requests per connection). Callers are goroutines issuing several calls in a row (a timed-out call is followed by further calls of the same goroutine while late answers still arrive); every result nil must carry the response the server produced for THAT request id. Every deadline call's return time is compared with deadline + 1.5 s; overflow results are cross-checked against the client's written bytes and the server's log. Two further drivers: thousands of calls with timeouts of 0..200 us against a stalled server from 8 goroutines (the deadline passes at every point of DoDeadline's entry path; each must still return), and a directed scenario where the server resets the connection while the writer's Write of a large request is held between chW and chR and a further request follows on the next connection.",
+    text="PipelineClient.tla has one action per step of pipelineConnClient (DoDeadline: fast/blocked enqueue, timer in both waits; Do: enqueue or fail the oldest queued work with ErrPipelineOverflow, then retry or fail itself; writer: take, deadline test, write, put to chR with stop alternative; reader; worker teardown failing pending readers; restart). TLC checks OverflowNotSent, ResultClass, TimerArmed, QueueBound, InFlightBound, OnePlace, that every deadline call returns whatever the server does (fair timers), and that the model refines PipelineObs (the caller/wire/server-visible behaviour) for 3 calls, P in {1,2}, servers answer/stall/close/refuse. A real PipelineClient (MaxPendingRequests 1-2, MaxConns 1-2) is driven by 4-10 concurrent DoDeadline/DoTimeout/Do calls against in-memory servers that answer, answer slowly, stall, close or refuse; call start/return, request lines completed in the bytes the client wrote (instrumented conn) and server answers are logged in one order and validated by PipelineObsTrace (overflow only for never-written requests, ok only for the call's own answered request, <= P+2 unanswered requests per connection). Callers are goroutines issuing several calls in a row (a timed-out call is followed by further calls of the same goroutine while late answers still arrive); every result nil must carry the response the server produced for THAT request id. Every deadline call's return time is compared with deadline + 1.5 s; overflow results are cross-checked against the client's written bytes and the server's log. ReadTimeout (a request answered later than ReadTimeout, further requests following) and TLS client configurations (a working one, and one whose Addr yields no server name so that every call fails with the configuration error - and must still return) are dimensions of the executions. Two further drivers: thousands of calls with timeouts of 0..200 us against a stalled server from 8 goroutines (the deadline passes at every point of DoDeadline's entry path; each must still return), and a directed scenario where the server resets the connection while the writer's Write of a large request is held between chW and chR and a further request follows on the next connection.",
     note="No hook in client.go: the queues are observed through the wire. Trusted: the harness's instrumented connection and server, Go timers. A timing observation only becomes a violation when a call returns > 1.5 s after its deadline (or not within 4.5 s). Do calls (no deadline) are outside the property; the driver ends them by letting the server answer.",
 )
 
